@@ -2,8 +2,6 @@
 package c01
 
 import (
-	"bytes"
-	"compress/gzip"
 	"fmt"
 	"os"
 	"path/filepath"
@@ -131,11 +129,7 @@ func check(c Case) error {
 	if c.FlatHeader {
 		pz := p + ".gz"
 		defer os.Remove(pz)
-		var buf bytes.Buffer
-		w := gzip.NewWriter(&buf)
-		_, _ = w.Write([]byte(whole))
-		_ = w.Close()
-		if err := os.WriteFile(pz, buf.Bytes(), 0o644); err != nil {
+		if err := os.WriteFile(pz, vk.Gzip([]byte(whole)), 0o644); err != nil {
 			return vk.Harnessf("write %s: %v", pz, err)
 		}
 		viaGz, err := parse("ReadFlatGz", func() []poly.Sequence { return genbank.ReadFlatGz(pz) })
